@@ -258,7 +258,7 @@ func addCacheScenarios(t *testing.T, s *explore.Suite) {
 	}
 	s.Add(explore.Scenario{Name: "cache-quick", Remote: true, Tiers: []string{"quick"}, Run: run(func(x *explore.X) { cacheScenario(x, 3) })})
 	s.Add(explore.Scenario{Name: "cache-thorough", Remote: true, Tiers: []string{"thorough"}, Run: run(func(x *explore.X) { cacheScenario(x, 4) })})
-	s.Add(explore.Scenario{Name: "concurrent-callers", Remote: true, Run: run(concurrentScenario)})
+	s.Add(explore.Scenario{Name: "concurrent-callers", Remote: true, FreeRunning: true, Run: run(concurrentScenario)})
 	s.Add(explore.Scenario{Name: "interleaved-callers", Remote: true, MaxDev: map[string]int{"quick": 2, "thorough": 3},
 		Run: func(x *explore.X) { interleavedScenario(t, x) }})
 }
